@@ -1,7 +1,7 @@
 import json, os, shutil, subprocess
 
 SPEC = {
-    "lean_modules": ["SemaModel.C01.Props", "SemaModel.C01.Tie", "SemaModel.C01.Accept"],
+    "lean_modules": ["SemaModel.C01.Props", "SemaModel.C01.Tie", "SemaModel.C01.Accept", "SemaModel.C01.Pins"],
     "lean_dirs": ["SemaModel/C01"],
     "harness": "c01",
     "harness_args": {"quick": ["-hist", 500, "-batches", 10], "thorough": ["-hist", 4000, "-batches", 14, "-thorough"]},
